@@ -220,13 +220,14 @@ pub fn check(depth: u8, h: u64, delta: u8, use_free_fns: bool, part: &mut Part) 
   };
   // expected filing, from geometry: an external cell faces a side if it shares 2 vertices with it,
   // a corner if it shares only that corner vertex
+  let side_sets: Vec<std::collections::HashSet<(i64, i64)>> = sides.iter().map(|v| v.iter().copied().collect()).collect();
   let mut exp_sides: [Vec<u64>; 4] = Default::default();
   let mut exp_corners: [Option<u64>; 4] = [None; 4];
   for &e in &ext {
     let ev: Vec<(i64, i64)> = vertices_lattice(dd, e).iter().map(|&(x, y)| canon_vertex(n, x, y).expect("oracle")).collect();
     let mut filed = false;
     for k in 0..4 {
-      let shared = ev.iter().filter(|v| sides[k].contains(v)).count();
+      let shared = ev.iter().filter(|v| side_sets[k].contains(v)).count();
       if shared >= 2 {
         exp_sides[k].push(e);
         filed = true;
